@@ -198,6 +198,19 @@ def _d2_by_algebra(eng, ctx, mb, T, sat_field, sig_field, cell_field, consumer_f
         fld = _mask_field(bt[0])
         return (fld, bt[1]) if fld else None
 
+    def substituted_mask(conds):
+        """a bit test whose operand is a gated value with an alternative that is not a mask field (a 'fast path' that replaces the mask by a computed value)"""
+        for c in conds:
+            bt = _bit_test_general(c)
+            if bt is None or bt[0] == "const" or bt[0][0] != "ite":
+                continue
+            alts = leaves(bt[0])
+            flds = {_mask_field(lf) for _, lf in alts}
+            if any(f_ is not None for f_ in flds) and None in flds:
+                g_, lf_ = next((g, lf) for g, lf in alts if _mask_field(lf) is None)
+                return c, lf_, g_
+        return None
+
     def constant_test(conds):
         """a recording condition that does not depend on any mask bit: every ID (or none) would be recorded"""
         for c in conds:
@@ -211,6 +224,10 @@ def _d2_by_algebra(eng, ctx, mb, T, sat_field, sig_field, cell_field, consumer_f
 
     # ---- satellite map
     for nf_ in (nsat, ncell):
+        sm = substituted_mask(nf_.conds)
+        if sm is not None:
+            ctx.bad("C09.D2", mb.qualname, "mask bit test", expected="every recorded label is decided by the bit of the mask field itself", found=f"under {guard_text(sm[2])[:60]} the test reads `{show(sm[1])[:50]}` instead of the mask", **loc)
+            return {"decided": True, "recvs": {}, "labels": [], "gets": []}
         ct = constant_test(nf_.conds)
         if ct is not None:
             ctx.bad("C09.D2", mb.qualname, "mask bit test", expected="labels recorded exactly for the set bits of the mask", found=f"`{show(ct[0])[:70]}` is {'always' if ct[1] else 'never'} true, whatever the mask holds", **loc)
